@@ -360,7 +360,9 @@ var attribute attributeParser
 type attributesParser struct{}
 
 func (attributesParser) Parse(in *parse.Input) (attributes []Attribute, ok bool, err error) {
+	vf := verifEnter()
 	for {
+		verifIter(in, "attributesParser", vf)
 		var attr Attribute
 		attr, ok, err = attribute.Parse(in)
 		if err != nil {
